@@ -67,6 +67,7 @@ def main():
             SUB = args[1]       # 'seeded' (property-breaking changes) or 'harmless' (property-preserving refactorings)
         args = args[2:]
     names = sorted(n for n in os.listdir(os.path.join(VERIF, SUB)) if os.path.isdir(os.path.join(VERIF, SUB, n)))
+    names = [n for n in names if not json.load(open(os.path.join(VERIF, SUB, n, 'meta.json'))).get('retired')]
     if args:
         names = [n for n in names if n in args or n.split('_')[0] in args]
     # longest checks first, round-robin
